@@ -1,7 +1,8 @@
 /-
   identity_provider.go — `IdpAuthnRequest.Validate`, `getACSEndpoint`, the IdP-initiated endpoint
   selection of `ServeIDPInitiated`, and `getSPEncryptionCert`.
-  Modelled tree: after the `fix:` commits (missing Issuer and empty certificate list are errors).
+  Modelled tree: after the `fix:` commits (missing Issuer, an encryption descriptor without a
+  certificate or with an empty one are errors).
 -/
 import SamlVerif.Model.Prelude
 
@@ -24,9 +25,23 @@ structure KeyDesc where
   certs : List String
   deriving DecidableEq, Repr
 
+/-- a `RequestedAttribute` of an attribute consuming service -/
+structure ReqAttr where
+  friendlyName : String
+  name : String
+  nameFormat : String
+  deriving DecidableEq, Repr
+
+/-- `AttributeConsumingService` -/
+structure AttrSvc where
+  isDefault : Option Bool
+  requested : List ReqAttr
+  deriving DecidableEq, Repr
+
 structure SPSSO where
   acs : List Endpoint
   keys : List KeyDesc
+  attrSvcs : List AttrSvc := []
   deriving DecidableEq, Repr
 
 structure EntityDesc where
@@ -131,20 +146,38 @@ inductive EncCert where
   | cert (data : String)
   deriving DecidableEq, Repr
 
+/-- first certificate of a descriptor, when it is there and not the empty string -/
+def firstCert (k : KeyDesc) : Option String :=
+  match k.certs with
+  | c :: _ => if c = "" then none else some c
+  | [] => none
+
 def selectEncCert (keys : List KeyDesc) : Outcome EncCert :=
   match keys.find? (fun k => k.use = "encryption") with
   | some k =>
+    (match firstCert k with
+     | some c => .ok (.cert c)
+     | none => .err "encryption-descriptor-without-certificate")
+  | none =>
+    match keys.find? (fun k => k.use = "" && (firstCert k).isSome) with
+    | some k' => (match firstCert k' with | some c' => .ok (.cert c') | none => .ok .none)
+    | none => .ok .none
+
+/-- the pinned selection: an empty certificate string in the encryption descriptor falls through to
+    the unlabeled search (and so possibly to "no key") -/
+def selectEncCertPinned (keys : List KeyDesc) : Outcome EncCert :=
+  match keys.find? (fun k => k.use = "encryption") with
+  | some k =>
     (match k.certs with
-     | [] => .err "encryption-descriptor-without-certificate"
+     | [] => .panic "index out of range"
      | c :: _ => if c = "" then
-                   -- falls through to the `use=""` search, as the code does when certStr stays empty
-                   (match keys.find? (fun k => k.use = "" && (match k.certs with | c :: _ => c ≠ "" | [] => false)) with
-                    | some k' => (match k'.certs with | c' :: _ => .ok (.cert c') | [] => .ok .none)
+                   (match keys.find? (fun k => k.use = "" && (firstCert k).isSome) with
+                    | some k' => (match firstCert k' with | some c' => .ok (.cert c') | none => .ok .none)
                     | none => .ok .none)
                  else .ok (.cert c))
   | none =>
-    match keys.find? (fun k => k.use = "" && (match k.certs with | c :: _ => c ≠ "" | [] => false)) with
-    | some k' => (match k'.certs with | c' :: _ => .ok (.cert c') | [] => .ok .none)
+    match keys.find? (fun k => k.use = "" && (firstCert k).isSome) with
+    | some k' => (match firstCert k' with | some c' => .ok (.cert c') | none => .ok .none)
     | none => .ok .none
 
 end SamlVerif.IdP
